@@ -42,6 +42,7 @@ DEFAULT_FLAGS = {
     'keyword_calls': False,     # some kernel-to-kernel calls with keyword arguments
     'max_stmts': 4,
     'fuse_pragmas': False,      # !$loki loop-fusion pragmas on fusable vertical loops
+    'driver_all_kinds': False,  # driver imports every kind parameter, not only those of its own declarations
     'alias_names': False,       # nested kernels name the horizontal / vertical size dummies differently
 }
 
@@ -551,6 +552,20 @@ class SccGen:
         live = [t for t in ker.temps if t.live_to >= nph - 1 and t in defined]
         body += self.compute_nest(ker, [a for a in ker.args] + live,
                                   [a for a in ker.args if a.role in ('inout', 'out')])
+        # every temporary that lived across a call is folded into an output, so that its values are observable
+        sink = ker.args[1]
+        fold = []
+        ctx = {'defined': [], 'jl': True}
+        for t in ker.temps:
+            if t.live_to > t.live_from and t in defined and t.shape not in ('V', 'C'):
+                r = self.ref(t, ctx)
+                val = {'r8': r, 'r4': f'real({r}, jprb)', 'i': f'0.01_jprb*real({r}, jprb)',
+                       'l': f'merge(0.1_jprb, -0.1_jprb, {r})'}[t.base]
+                lhs = self.ref(sink, ctx, write=True)
+                fold.append(f'      {lhs} = 0.5_jprb*{lhs} + 0.125_jprb*{val}')
+        if fold:
+            body += self.hloop(fold, '    ')
+            self.feat.add('temp:long-lived-folded-into-output')
         ker.body = body
         return ker
 
@@ -676,8 +691,9 @@ class SccGen:
                  'HCV': ':, :, :'}
         args = [H, V, B, 'istart', 'iendoff', 'ngptot'] + [v.name for v in fields] + ['zfac', 'lflag']
         L = [f'  subroutine {self.case.driver_name}({", ".join(args)})']
+        self.driver_kinds = 'jpim, jprb' + (', jprm' if f['driver_all_kinds'] or any(v.kind == 'jprm' for v in fields) else '')
         if not f['module_level_imports']:
-            L.append('    use parkind1, only: jpim, jprb, jprm')
+            L.append(f'    use parkind1, only: {self.driver_kinds}')
         for ker in tops:
             L.append(f'    use {ker.module}, only: {ker.name}')
         L.append(f'    integer(kind=jpim), intent(in) :: {H}, {V}, {B}, istart, iendoff, ngptot')
@@ -814,11 +830,12 @@ class SccGen:
             head += ['  implicit none', 'contains']
             files[f'{m}.F90'] = '\n'.join(head) + '\n' + '\n\n'.join(self.kernel_text(k) for k in mods[m]) + \
                 f'\nend module {m}\n'
+        drv = self.gen_driver(tops)
         head = ['module driver_mod']
         if f['module_level_imports']:
-            head.append('  use parkind1, only: jpim, jprb, jprm')
+            head.append(f'  use parkind1, only: {self.driver_kinds}')
         head += ['  implicit none', 'contains']
-        files['driver_mod.F90'] = '\n'.join(head) + '\n' + self.gen_driver(tops) + '\nend module driver_mod\n'
+        files['driver_mod.F90'] = '\n'.join(head) + '\n' + drv + '\nend module driver_mod\n'
         self.case.files = files
         self.case.main = self.gen_main()
         self.case.stdins = self.gen_stdins()
